@@ -1,0 +1,14 @@
+//go:build verif
+// +build verif
+
+package patch
+
+// VerifHook, when set, is called at the instrumentation points of this package
+// (verification builds only: -tags verif).
+var VerifHook func(point string, a, b uintptr)
+
+func verifHook(point string, a, b uintptr) {
+	if h := VerifHook; h != nil {
+		h(point, a, b)
+	}
+}
